@@ -13,10 +13,11 @@ PKGS=$(grep '^+++ b/' "$D/patch.diff" | sed 's|+++ b/||' | xargs -n1 dirname | s
 cp "$D/demo_test.go" "$DEMO"
 DP="./$(dirname "$DEMO")"
 DT=$(grep -o '^func Test[A-Za-z0-9_]*' "$D/demo_test.go" | sed 's/func //' | paste -sd'|')
-go test -vet=off -count=1 -run "^($DT)\$" "$DP" >/tmp/sv-clean.log 2>&1; CLEAN=$?
+TAGS=""; grep -q "go:build verif" "$D/demo_test.go" && TAGS="-tags verif"
+go test $TAGS -vet=off -count=1 -run "^($DT)\$" "$DP" >/tmp/sv-clean.log 2>&1; CLEAN=$?
 git apply "$D/patch.diff" || { echo "patch does not apply"; exit 2; }
 go build ./... >/tmp/sv-build.log 2>&1; BUILD=$?
-go test -vet=off -count=1 -run "^($DT)\$" "$DP" >/tmp/sv-demo.log 2>&1; DEMORC=$?
+go test $TAGS -vet=off -count=1 -run "^($DT)\$" "$DP" >/tmp/sv-demo.log 2>&1; DEMORC=$?
 rm "$DEMO"
 go test -vet=off -count=1 $PKGS >/tmp/sv-tests.log 2>&1; TESTS=$?
 echo "build=$BUILD existing_tests($PKGS)=$TESTS demo_with_patch=$DEMORC(demo must fail) demo_clean=$CLEAN(must pass)"
